@@ -1,7 +1,7 @@
 # C09 — every basis projection and deconvolution-operator element equals its
 # defining Abel integral (basex, daun degrees 0-3, rbasex orders 0..8, dasch).
 #
-#   theorems       coq/props/C09.v (daun degree 0, 1, 2 entries, onion-peeling W =
+#   theorems       coq/props/C09.v (daun degree 0, 1, 2 entries, Hermite p/q of degree 3, onion-peeling W =
 #                  transposed degree-0 matrix, two_point / three_point operator entries of
 #                  every row i >= 1, rbasex orders 0..8), all indices and sizes, about the
 #                  formulas that tools/translate/formulas_basis.py regenerates from
@@ -72,12 +72,14 @@ Ltac evalz := repeat match goal with
   end.
 Ltac acos2atan := repeat match goal with
   |- context [acos ?x] => rewrite (acos_atan x) by interval end; unfold Rsqr.
-Ltac tv := repeat autounfold with c09defs; evalconds; evalz; acos2atan; timeout 120 (interval with (i_prec 90)).
-(* the upper limit must not contain the literal 0 (= the lower limit): Interval 4.6 fails to
+Ltac tv := repeat autounfold with c09defs; evalconds; evalz; acos2atan; interval with (i_prec 90).
+(* no Ltac timeout: a wrong value makes `integral` use up its fuel (about 25 s of CPU), which is
+   deterministic and independent of the load of the machine.
+   the upper limit must not contain the literal 0 (= the lower limit): Interval 4.6 fails to
    reify the goal otherwise; zeros outside binders are simplified first *)
 Ltac inst := unfold rbasex_proj; unfold Abel, AbelW, tri, quad2, herm_p, herm_q, pos; cbv beta;
   rewrite ?Rmult_0_l, ?Rmult_0_r, ?Rplus_0_l, ?Rminus_0_r;
-  timeout 120 (integral with (i_prec 60, i_fuel 2000, i_degree 6)).
+  integral with (i_prec 60, i_fuel 500, i_degree 6).
 '''
 
 
@@ -233,7 +235,7 @@ def tv_goals(fb, D, info, rng, quick):
     goals = []
     samples = []
     nbig = 300
-    nsm = 9
+    nsm = 9 if quick else 24      # thorough: every entry of the 24 x 24 matrices is validated inside Coq
 
     def add(tag, call, v, err):
         tol = up_pow2(float(TOL_REL) * abs(v) + 16 * err + 1e-300)
@@ -302,13 +304,13 @@ def inst_goals(fb, D, rng, quick):
     A1 = dn._bs_daun(n, 1)
     prs = [(0, 0), (1, 0), (1, 1), (2, 1), (2, 2), (3, 1), (5, 4), (5, 5), (n - 1, n - 1), (n - 1, 0), (n - 1, n - 2)]
     prs += [tuple(sorted((int(a), int(b)), reverse=True)) for a, b in rng.integers(0, n, (2 if quick else 25, 2))]
-    for j, i in (prs[:5] + prs[8:9] if quick else prs):
+    for j, i in (prs[1:4] + prs[8:9] if quick else prs):
         tol = up_pow2(2.0 ** -30 * max(1.0, float(j + 1) ** 3 * 1e-4))
         add('daun2[%d][%d]' % (j, i), float(A2[j, i]), 'Abel (quad2 %d) (%d + 1) %d' % (j, j, i), tol)
-    for j, i in prs[:4]:
+    for j, i in prs[2:4]:
         add('daun1[%d][%d]' % (j, i), float(A1[j, i]), 'Abel (tri %d) (%d + 1) %d' % (j, j, i), Fraction(1, 2 ** 30))
     for nm, fun in (('daun_p3', 'herm_p'), ('daun_q3', 'herm_q')):
-        for j, i in prs[:9] + prs[11:]:
+        for j, i in (prs[2:4] + prs[8:9] if quick else prs[:9] + prs[11:]):
             v, e = fb.ev(D[nm][1], dict(i=i, j=j), D)
             tol = up_pow2(2.0 ** -30 + 64 * e)
             add('%s[%d][%d]' % (nm, j, i), v, 'Abel (%s %d) (%d + 1) %d' % (fun, j, j, i), tol)
@@ -318,7 +320,7 @@ def inst_goals(fb, D, rng, quick):
         for idx, k in enumerate(range(0, 9, 1 if odd else 2)):
             if odd and k % 2 == 0:
                 continue
-            prs = [(1, 1), (2, 1), (Rm, 3)] if quick else [(1, 1), (2, 1), (2, 2), (Rm, Rm), (Rm, 3)]
+            prs = [(2, 1), (Rm, 3)] if quick else [(1, 1), (2, 1), (2, 2), (Rm, Rm), (Rm, 3)]
             prs += [tuple(int(x) for x in sorted(rng.integers(1, Rm + 1, 2), reverse=True)) for _ in range(0 if quick else 5)]
             for Rc, r in prs:
                 add('rbasex[%d][%d,%d]' % (k, Rc, r), float(P[idx][Rc, r]), 'rbasex_proj %d %d %d' % (k, Rc, r),
@@ -334,7 +336,7 @@ def inst_goals(fb, D, rng, quick):
             v = float(Mc[i, k])
             tol = up_pow2(2.0 ** -36 * max(v, 1e-290))
             add('basex_rho[s=%s][%d,%d]' % (sigma, i, k), v, 'basex_rho %d %s %d' % (k * k, rlit(Fraction(sigma)), i), tol,
-                'unfold basex_rho; timeout 120 (interval with (i_prec 100))')
+                'unfold basex_rho; interval with (i_prec 100)')
     return goals, samples
 
 
@@ -379,6 +381,22 @@ elif kind in ('two_point', 'three_point', 'onion_peeling'):
         got = D[a, b]; ref = Q.inv_abel_pieces(d, float(a), 0, hi, br)[0]
 print(kind, prm, (a, b), 'implementation', repr(float(got)), 'defining integral', repr(float(ref)), 'tol', tol)
 sys.exit(0 if abs(got - ref) <= tol else 1)
+'''
+
+
+ROW_SNIPPET = r'''
+import sys, numpy as np
+sys.path.insert(0, %(tools)r)
+from oracle import c09_quad as Q
+import abel.dasch
+kind, n, i = %(kind)r, %(n)d, %(i)d
+D = getattr(abel.dasch, '_bs_' + kind)(n)
+P = np.exp(-((np.arange(n) - 22.0) / 9.0) ** 2) + 0.3 * np.exp(-((np.arange(n) - 40.0) / 3.0) ** 2)
+d, hi, br = (Q.two_point_interp_d if kind == 'two_point' else Q.three_point_interp_d)(P)
+ref, qe = Q.inv_abel_pieces(d, float(i), 0.0, hi, br)
+got = D[i] @ P
+print(kind, 'row', i, 'applied to a smooth profile:', repr(float(got)), 'inverse Abel integral of the interpolant:', repr(float(ref)))
+sys.exit(0 if abs(got - ref) <= 1e-11 + 10 * qe else 1)
 '''
 
 
@@ -534,8 +552,8 @@ def search(ctx, rng, budget):
                 # localise: which entry of the row
                 hits.append(Hit('operator-row', 'C09:%s:row-applied-to-smooth-profile' % kind,
                                 '%s operator row %d applied to a smooth profile differs from the inverse Abel integral of the interpolant'
-                                % (kind, i), SNIPPET % dict(tools=os.path.join(vlib.VERIF, 'tools'), kind=kind, prm=(n,), a=i,
-                                                            b=int(np.argmax(np.abs(Pv))), tol=1e-11), dict(row=i, n=n)))
+                                % (kind, i), ROW_SNIPPET % dict(tools=os.path.join(vlib.VERIF, 'tools'), kind=kind, n=n, i=i),
+                                dict(row=i, n=n, value=float(Dm[i] @ Pv), quadrature=float(ref))))
     # onion peeling: W = inv(D) against the projections of the rings
     for n in (5, 40):
         Dm = da._bs_onion_peeling(n)
@@ -598,7 +616,7 @@ def run(ctx):
         tvg, tvs = tv_goals(fb, D, info, rng, quick)
         ing, ins = inst_goals(fb, D, rng, quick)
         t0 = time.time()
-        ok1, f1, e1 = run_goal_files('C09_tv', tvg, per_file=8 if quick else 16)
+        ok1, f1, e1 = run_goal_files('C09_tv', tvg, per_file=8 if quick else 48)
         ok2, f2, e2 = run_goal_files('C09_inst', ing, per_file=3 if quick else 6)
         n_goal_ok = ok1 + ok2
         goal_fail = f1 + f2
@@ -638,7 +656,7 @@ def run(ctx):
                    samples=(tvs[:3] + ins[:3]),
                    input_distribution=dict(structure_sizes=list(sizes),
                                            tv_goals=len(tvs), instance_goals=len(ins), search_evaluations=n_eval),
-                   instances_only=['daun degree 3 (Hermite p/q; the spline solve only swept)', 'basex rho_k'],
+                   instances_only=['basex rho_k'],
                    swept_only=['basex projections chi_k', 'daun degree 3 cardinal spline (solve_banded)',
                                'two_point axis entries D[0][0], D[0][1] are a convention (compared with the documented constants)'],
                    exhaustive=False)
@@ -663,11 +681,11 @@ def run(ctx):
                           json.dumps(goal_err[:3]))
     ctx.notes += notes
     ctx.assumptions += [
-        'theorems (all indices/sizes): daun degree 0, 1, 2 entries, onion-peeling W, two_point and three_point entries of rows i >= 1, '
+        'theorems (all indices/sizes): daun degree 0, 1, 2 entries and the Hermite p/q projections of degree 3, onion-peeling W, two_point and three_point entries of rows i >= 1, '
         'rbasex orders 0..8 for 1 <= r <= R; they are about coq/gen/FormulasBasis.v, regenerated from abel/daun.py, abel/dasch.py, '
         'abel/rbasex.py by a fail-closed translator on every run',
-        'per-instance machine-checked goals (labelled instances, not the unbounded claim): Hermite p/q of daun degree 3, basex rho_k; '
-        'additional instances of daun 1/2 and rbasex tie the floats of the implementation to the integrals (tolerance 2^-30 x scale)',
+        'per-instance machine-checked goals (labelled instances, not the unbounded claim): basex rho_k; '
+        'additional instances of daun 1/2/3(p,q) and rbasex tie the floats of the implementation to the integrals (tolerance 2^-30 x scale)',
         'only swept numerically (scipy quad): basex projections chi_k (infinite support, Gaussian moments), the clamped-spline solve of '
         'daun degree 3',
         'the Dasch axis row i = 0 is a convention of the methods and is not compared with an integral',
